@@ -233,8 +233,11 @@ def _d3(chk, fb):
                 ok_sort = True
         if ok_sort:
             chk.proved("D3", clean.key, "sorts", clean.loc(), "std::sort(ranges_.begin(), ranges_.end(), rangeComp_)")
+        elif sorts:
+            chk.refuted("D3", clean.key, "sorts", clean.loc(), "clean_() calls std::sort but not over the whole of ranges_ with rangeComp_: %s" % [render(s_) for s_ in sorts])
         else:
-            chk.refuted("D3", clean.key, "sorts", clean.loc(), "clean_() no longer sorts the whole of ranges_ with rangeComp_")
+            # a hand-written ordering pass cannot be judged by this rule: neither pass nor violation
+            chk.fail_broken("anchor vanished: %s no longer orders ranges_ through std::sort; the canonical-order clause (D3) must be re-examined" % clean.key)
         cfg = clean.cfg
         erases = [n for n in clean.calls() if n["callee"]["name"] == "erase" and render(clean.obj(n)) == "ranges_"]
         if not erases:
@@ -282,6 +285,59 @@ def _d3(chk, fb):
             chk.proved("D3", f.key, "slice-then-drop-empties", f.loc(), "every sliced element is tested with isEmpty() and erased when empty")
         else:
             chk.refuted("D3", f.key, "slice-then-drop-empties", f.loc(), "RangeSet::restrictTo can keep an element that became empty")
+
+
+def _erase_advance(chk, fb):
+    """a loop that visits every element of ranges_ and erases the current one must not also advance past the
+    element that slides into its place (iterator: 'it = erase(it)' without ++; index: no ++i on the erase path)"""
+    n_sites = 0
+    for T in TYPES:
+        for coll in ("RangeSet", "MultiRange"):
+            cls = "bpp::%s<%s>" % (coll, T)
+            for m in fb.need_class(cls)["methods"]:
+                f = fb.fns.get(m["key"])
+                if f is None or f.body is None:
+                    continue
+                cfg = f.cfg
+                loops = e1.natural_loops(cfg)
+                for e in [n for n in f.calls() if n["callee"]["name"] == "erase" and "obj" in n and render(f.obj(n)) == "ranges_"]:
+                    arg = strip(f.args(e)[0])
+                    # position expression: iterator variable, or begin() + <index variable>
+                    var = None
+                    if arg["k"] == "DeclRefExpr":
+                        var = arg["decl"]
+                    else:
+                        refs = [x for x in walk(arg) if x["k"] == "DeclRefExpr" and x["decl"]["kind"] in ("local", "param")]
+                        subs = [x for x in walk(arg) if is_call(x) and x["callee"]["name"] == "operator[]"]
+                        if len(refs) == 1 and not subs:
+                            var = refs[0]["decl"]
+                    if var is None:
+                        continue   # position looked up in another container (addRange's descending merge loop)
+                    eb = cfg.stmt_block(e)
+                    heads = [h for h, body in loops.items() if eb in body]
+                    if not heads:
+                        continue
+                    head = min(heads, key=lambda h: len(loops[h]))
+                    body = loops[head]
+                    n_sites += 1
+                    incs = set()
+                    for b in body:
+                        for el in cfg.blocks[b]["el"]:
+                            n = f.nodes.get(el)
+                            if n is None:
+                                continue
+                            if (n["k"] == "UnaryOperator" and n["op"] == "++") or (is_call(n) and n.get("op") == "++"):
+                                tgt = strip(kids(n)[0]) if n["k"] == "UnaryOperator" else strip(f.obj(n) or (f.args(n)[0] if f.args(n) else None))
+                                if tgt is not None and tgt["k"] == "DeclRefExpr" and tgt["decl"]["id"] == var["id"]:
+                                    incs.add(b)
+                    # path erase -> (increment) -> head within the loop
+                    skip = any(e1.path_exists(cfg, eb, ib, avoid_blocks=(set(cfg.blocks) - body) | ({head} - {eb})) for ib in incs if ib != eb) or eb in incs
+                    if skip:
+                        chk.refuted("D3", f.key, "erase-then-advance:" + var["name"], f.loc(e),
+                                    "after erasing the element at '%s' the loop also advances '%s': the element that moved into the erased slot is never visited" % (var["name"], var["name"]))
+                    else:
+                        chk.proved("D3", f.key, "erase-then-advance:" + var["name"], f.loc(e), "the erase path does not advance '%s'" % var["name"])
+    chk.floor("D3", "erase-in-loop sites", n_sites, 12)
 
 
 def _d4(chk, fb):
@@ -343,6 +399,7 @@ def run(chk, fb, tier):
     _d1(chk, fb, tier)
     _d2(chk, fb)
     _d3(chk, fb)
+    _erase_advance(chk, fb)
     _d4(chk, fb)
     chk.assume("E3: coordinates totally ordered (no NaN); arithmetic on coordinates occurs only in shift/length, which are outside D1")
     chk.assume("the literal 0 written by sliceWith is modelled as an arbitrary fixed coordinate: the oracle only requires the result to be empty")
